@@ -185,7 +185,9 @@ Inductive source :=
 | SrcLateral (k : jkind) (l : source) (rw : nat) (sub : row -> query) (cond : option expr)
 | SrcRec (all : bool) (width : nat) (base : query) (step : list row -> query) (limit : nat)
 with body :=
-| BSelect (src : source) (where_ : option expr) (group : option (list expr)) (having : option expr)
+| BSelect (src : source) (where_ : option expr) (group : option (list expr))
+          (having : option (list sitem * expr))        (* HAVING h: the aggregates and key columns h mentions,
+                                                          and h itself over the row of their values *)
           (items : list sitem) (distinct : bool)
 | BSet (op : setop) (all : bool) (l r : body)
 | BSub (q : query)
@@ -211,6 +213,19 @@ Section Eval.
   Definition bucket_idx (keys : list expr) (rows : list row) : res (list (list nat)) :=
     do ks <- mapM (fun r => do vs <- mapM (eval r) keys; Ok (row_key strict vs)) rows;
     Ok (group_keys ks).
+
+  (* HAVING: a group stays iff the condition, evaluated over the values its items take on the group,
+     is TRUE; the groups keep their order; the first error (group by group, items before the
+     condition) is the result *)
+  Fixpoint filter_groups (his : list sitem) (h : expr) (gs : list (list row)) : res (list (list row)) :=
+    match gs with
+    | [] => Ok []
+    | g :: gs' =>
+        do hv <- mapM (eval_item g) his;
+        do v <- eval hv h;
+        do rest <- filter_groups his h gs';
+        Ok (if is_true v then g :: rest else rest)
+    end.
 
   Definition group_rows (keys : list expr) (rows : list row) : res (list (list row)) :=
     do ks <- mapM (fun r => do vs <- mapM (eval r) keys; Ok (row_key strict vs)) rows;
@@ -293,10 +308,12 @@ Section Eval.
                         do gs <- group_rows keys rows1;
                         do gs1 <- (match hav with
                                    | None => Ok gs
-                                   | Some h => Err (EOther 99)      (* HAVING: outside the fragment *)
+                                   | Some (his, h) => filter_groups his h gs
                                    end);
                         mapM (fun g => do o <- mapM (eval_item g) items; Ok (hd [] g, o)) gs1
                     | None =>
+                        (* HAVING without GROUP BY (one implicit group) is outside the fragment: never a silent "no HAVING" *)
+                        if (match hav with Some _ => true | None => false end) then Err (EOther 99) else
                         if existsb item_is_agg items then
                           (* aggregates without GROUP BY: everything is one group, also when empty *)
                           do o <- mapM (eval_item rows1) items; Ok [(hd [] rows1, o)]
